@@ -44,3 +44,60 @@ def layouts(draw, kind, spec):
     return {"omit": sorted(omit), "group": draw(st.booleans()), "order": draw(st.lists(st.integers(0, 9), max_size=8)),
             "comments": draw(st.booleans()), "tabs": draw(st.booleans()), "blank_lines": draw(st.booleans()),
             "pad": draw(st.booleans()), "trailing_newline": draw(st.booleans())}
+
+
+WIDE = list("abcdefghijklmnopqrstuvwxyz0123456789")
+
+
+@st.composite
+def wide_text_specs(draw, kind):
+    """Few states, many symbols: one edge carries 9-20 labels (printers wrap or group long label lists)."""
+    k = draw(st.integers(9, 20))
+    start = draw(st.integers(0, len(WIDE) - k))
+    S = WIDE[start:start + k] if draw(st.booleans()) else sorted(draw(st.permutations(WIDE))[:k])
+    n = draw(st.integers(1, 3))
+    Q = draw(G.names(n, G.POOL[:10]))
+    main = {q: Q[draw(st.integers(0, n - 1))] for q in Q}
+
+    def tgt(q):
+        return main[q] if draw(st.integers(0, 9)) else Q[draw(st.integers(0, n - 1))]
+    if kind == "dfa":
+        return {"Q": Q, "S": S, "d": [[q, a, tgt(q)] for q in Q for a in S], "q0": Q[0], "F": G.finals(draw, Q), "eps": None}
+    if kind == "nfa":
+        eps = draw(st.sampled_from(PRINTABLE_EPS[:2]))
+        d = []
+        for q in Q:
+            for a in S + [eps]:
+                if draw(st.integers(0, 9)) < 8:
+                    d.append([q, a, tgt(q)])
+                    if draw(st.integers(0, 9)) == 0:
+                        t = [q, a, Q[draw(st.integers(0, n - 1))]]
+                        if t not in d:
+                            d.append(t)
+        return {"Q": Q, "S": S, "d": d, "q0": Q[0], "F": G.finals(draw, Q), "eps": eps, "rep": "dd_set"}
+    if kind == "pda":
+        eps = draw(st.sampled_from(PRINTABLE_EPS[:2]))
+        S2 = S[:draw(st.integers(3, 6))]
+        Gm = ["X", "Y", "$"]
+        d = []
+        for q in Q:
+            for a in S2 + [eps]:
+                for u in Gm + [eps]:
+                    if draw(st.integers(0, 9)) < 6:
+                        d.append([q, a, u, tgt(q), (Gm + [eps])[draw(st.integers(0, 3))]])
+        return {"Q": Q, "S": S2, "G": Gm, "d": d, "q0": Q[0], "F": G.finals(draw, Q), "eps": eps}
+    blank = draw(st.sampled_from(GT.BLANKS))
+    Q = Q + [x for x in ["yes", "no"] if x not in Q][:2]
+    if len(Q) < n + 2:
+        Q = ["w%d" % i for i in range(n)] + ["yes", "no"]
+        main = {q: Q[draw(st.integers(0, n - 1))] for q in Q}
+    acc, rej = Q[-1], Q[-2]
+    Sin = S[:draw(st.integers(0, k))]
+    Gm = S + [blank]
+    d = []
+    for q in Q[:-2]:
+        for a in Gm:
+            if draw(st.integers(0, 9)) < 8:
+                t = main[q] if draw(st.integers(0, 9)) else Q[draw(st.integers(0, len(Q) - 1))]
+                d.append([q, a, t, Gm[draw(st.integers(0, len(Gm) - 1))], "LR"[draw(st.integers(0, 1))]])
+    return {"Q": Q, "S": Sin, "G": Gm, "d": d, "q0": Q[0], "acc": acc, "rej": rej, "blank": blank}
